@@ -102,7 +102,24 @@ R11 = {
  "C19": "the stored cluster_manager section keeps every field of the loaded one except the cluster lists",
  "C20": "raw JSON sections (extend configs) reach the admin surface only through a redactor that walks the JSON; the walk writes only into the tree encoding/json allocated for it; raw static resources pass the raw redactor; the envoy style /config_dump needs a redactor (one recorded finding)",
 }
-GENERIC = "generic hygiene over the property's packages: no loop-variable address escapes its iteration, every mutex acquired in a function is released on every path to its return and not re-acquired in a callee, a field accessed through sync/atomic is never accessed plainly outside construction (frozen exceptions), storage given back to a pool is not returned or stored, no append onto a loop-invariant slice whose result is kept, no signed remainder of a converted unsigned 64-bit value"
+R12 = {
+ "C01": "a recycled codec buffer keeps nothing of the frame it held",
+ "C02": "a local reply replaces headers, data and trailers of the stored response",
+ "C03": "the global timeout resets the try that is current when it fires; the close handler touches listed streams only under the list lock",
+ "C05": "the binary search for a host to remove uses the order the members were sorted by",
+ "C07": "the byte the TLS inspector peeked is counted by every Read that hands it out",
+ "C10": "the global timeout resets the try that is current when it fires",
+ "C11": "every mosn sets the hand-over schedule from the configured graceful timeout when it starts",
+ "C12": "the hosts of a load assignment are the concatenation of every locality's converted endpoints",
+ "C13": "a custom verifier verifies the first presented certificate",
+ "C14": "the filter lists of a chain only grow by append (registration order is never permuted)",
+ "C15": "the subset builders' Range callbacks never end the iteration",
+ "C17": "the regex_rewrite substitution is always expanded as a template",
+ "C18": "HPACK dynamic table: size comparisons with maxSize keep on equality",
+ "C19": "live virtual-host positions equal configuration positions",
+ "C20": "a redacted raw JSON section is the re-encoded redacted document, not a text substitution",
+}
+GENERIC = "generic hygiene over the property's packages: no loop-variable address escapes its iteration, every mutex acquired in a function is released on every path to its return and not re-acquired in a callee, a field accessed through sync/atomic is never accessed plainly outside construction (frozen exceptions), storage given back to a pool is not returned or stored, no append onto a loop-invariant slice whose result is kept, no signed remainder of a converted unsigned 64-bit value or of a wrapping signed 32-bit counter"
 props = [json.loads(l)['id'] for l in open('/verif/properties.jsonl')]
 checks, na = [], []
 for p in props:
@@ -113,6 +130,8 @@ for p in props:
         dec = dec + "; " + R10[p]
     if p in R11:
         dec = dec + "; " + R11[p]
+    if p in R12:
+        dec = dec + "; " + R12[p]
     dec = dec + "; " + GENERIC
     tech = tech + ", lock-balance and atomic-discipline dataflow"
     if p in R8:
